@@ -645,6 +645,9 @@ func (x *Exec) evalIdent(e *ast.Ident, st *State) (Value, types.Type) {
 	}
 	if x.contract {
 		if q, ok := x.quant[e.Name]; ok {
+			if q.Sort == SStr {
+				return q, types.Typ[types.String]
+			}
 			return q, types.Typ[types.Int]
 		}
 		if v, ok := st.names[e.Name]; ok {
